@@ -1,0 +1,93 @@
+//go:build verif
+
+// Contracts for govc (see /verif/DESIGN.md). This file contains only
+// comments; it is compiled only under the `verif` build tag.
+
+package tools
+
+// ---- Graphviz ----
+// (the closures capture seen, nodes, w, ... by reference: *seen is the map)
+
+// node: emits exactly one node line for a name it has not seen, none otherwise.
+//@ func Dot$1 returns err
+//@   safety C20
+//@   requires seen != nil && *seen != nil && toNode != nil && w != nil
+//@   modifies *seen
+//@   ensures[C20] nilnode: n == nil ==> err != nil && ncalls(fmt.Fprintf) == old(ncalls(fmt.Fprintf))
+//@   ensures[C20] once: n != nil ==> err == nil && (name in *seen) && ncalls(fmt.Fprintf) == old(ncalls(fmt.Fprintf)) + (old(name in *seen) ? 0 : 1)
+//@   ensures *seen == old(*seen) && forall k string :: k != name ==> ((k in *seen) <==> old(k in *seen))
+
+// The `node` closure as seen from `process` (which does not capture `seen`):
+// it changes only its own map of names; implied by the contract of Dot$1 above.
+//@ sig tools.dotNode(name, n) returns (err)
+//@   logical seenmap map[string]bool
+//@   modifies seenmap
+//@   ensures n != nil ==> err == nil
+
+// process: one edge line per branch (the node lines are emitted by `node`).
+//@ func Dot$2 returns err
+//@   safety C20
+//@   calls node as sig:tools.dotNode
+//@   requires n != nil && wfBranches(n.Branches) && nodes != nil && *nodes != nil && node != nil && *node != nil
+//@   requires toNode != nil && fromNode != nil && w != nil && yamlPatterns != nil
+//@   ensures[C20] edges: err == nil && n.Branches != nil ==> ncalls(fmt.Fprintf) == old(ncalls(fmt.Fprintf)) + len(n.Branches.Branches)
+//@   loop 0 invariant[C20] ncalls(fmt.Fprintf) == old(ncalls(fmt.Fprintf)) + rangeindex + 1 && rangeindex < len(n.Branches.Branches)
+
+//@ func Dot returns err
+//@   safety C20
+//@   requires spec != nil && wfSpec(spec) && w != nil
+//@   loop 0 modifies nodes
+//@   loop 0 invariant nodes != nil && forall k string :: (k in nodes) ==> (k in spec.Nodes) && nodes[k] == spec.Nodes[k]
+//@   loop 1 invariant nodes != nil && seen != nil && forall k string :: (k in nodes) ==> (k in spec.Nodes) && nodes[k] == spec.Nodes[k]
+
+// ---- Mermaid ----
+
+//@ func Mermaid$1 returns nid, err
+//@   safety C20
+//@   requires nids != nil && *nids != nil && opts != nil && *opts != nil && num != nil && w != nil
+//@   modifies *nids, num
+//@   ensures[C20] once: err == nil && (name in *nids) && (old(name in *nids) ==> ncalls(fmt.Fprintf) == old(ncalls(fmt.Fprintf)) && nid == old((*nids)[name]))
+//@   ensures[C20] fresh: !old(name in *nids) ==> ncalls(fmt.Fprintf) >= old(ncalls(fmt.Fprintf)) + 1 && ncalls(fmt.Fprintf) <= old(ncalls(fmt.Fprintf)) + 2
+//@   ensures *nids == old(*nids) && *opts == old(*opts)
+
+//@ sig tools.mermaidNode(name, n) returns (nid, err)
+//@   logical nidsmap map[string]string
+//@   logical numcell *int
+//@   modifies nidsmap, numcell
+//@   ensures err == nil
+
+//@ func Mermaid$2 returns err
+//@   safety C20
+//@   calls node as sig:tools.mermaidNode
+//@   requires n != nil && wfBranches(n.Branches) && nodes != nil && *nodes != nil && opts != nil && *opts != nil && node != nil && *node != nil && w != nil
+//@   ensures[C20] edges: err == nil && n.Branches != nil ==> ncalls(fmt.Fprintf) == old(ncalls(fmt.Fprintf)) + len(n.Branches.Branches)
+//@   loop 0 invariant[C20] ncalls(fmt.Fprintf) == old(ncalls(fmt.Fprintf)) + rangeindex + 1 && rangeindex < len(n.Branches.Branches)
+
+//@ func Mermaid returns err
+//@   safety C20
+//@   requires spec != nil && wfSpec(spec) && w != nil
+//@   loop 0 modifies nodes
+//@   loop 0 invariant nodes != nil && forall k string :: (k in nodes) ==> (k in spec.Nodes) && nodes[k] == spec.Nodes[k]
+//@   loop 1 invariant nodes != nil && nids != nil && opts != nil && forall k string :: (k in nodes) ==> (k in spec.Nodes) && nodes[k] == spec.Nodes[k]
+
+// ---- analysis ----
+
+//@ func diffKeys returns diff
+//@   safety C20
+//@   modifies nothing
+//@   ensures[C20] exact: diff != nil && fresh(diff) && forall k string :: (k in diff) <==> ((k in all) && !(k in used))
+//@   loop 0 modifies diff
+//@   loop 0 invariant[C20] forall k string :: (k in diff) <==> (seen(0)[k] && !(k in used))
+//@   loop 0 invariant forall k string :: seen(0)[k] ==> (k in all)
+
+//@ func keysToStringSlice returns list
+//@   safety C20
+//@   modifies nothing
+//@   loop 0 invariant ref(list) == nil || fresh(list)
+
+//@ func Analyze returns a, err
+//@   safety C20
+//@   requires s != nil && wfSpec(s)
+//@   ensures[C20] count: err == nil && a != nil && a.NodeCount == len(s.Nodes)
+//@   loop 0 invariant a.NodeCount == len(s.Nodes)
+//@   loop 1 invariant a.NodeCount == len(s.Nodes)
